@@ -28,10 +28,9 @@ def run(ctx, out, tier):
     if fp is None:
         out.inst("C15.ignore", 0, 3, note="file parser not found")
     else:
-        for b in ctx.reachable_bodies():
-            for bi, t in b.calls():
-                if (t.get("res") or "") != fp.id:
-                    continue
+        from rules.C02 import parser_call_sites
+        for b, bi, t in parser_call_sites(ctx, fp):
+            if True:
                 in_walk = any(bi in (util.iter_region(b, nb) | set(bl)) for h, bl, nb in util.loop_of_next(ctx, b, r"FileSystem::walk\("))
                 gs = util.guards(ctx, b, bi)
                 E = ctx.expr(b)
